@@ -217,11 +217,14 @@ impl System {
         self.load_version().await.with_error_context(|error| {
             format!("{COMPONENT} (error: {error}) - failed to load version")
         })?;
-        self.load_users(system_state.users.into_values().collect())
-            .await
-            .with_error_context(|error| {
-                format!("{COMPONENT} (error: {error}) - failed to load users")
-            })?;
+        self.load_users(
+            system_state.users.into_values().collect(),
+            system_state.last_user_id,
+        )
+        .await
+        .with_error_context(|error| {
+            format!("{COMPONENT} (error: {error}) - failed to load users")
+        })?;
         self.load_streams(system_state.streams.into_values().collect())
             .await
             .with_error_context(|error| {
